@@ -488,7 +488,8 @@ def replay(wit):
 
 LEVEL = 'exploration'
 TECHNIQUE = 'runtime monitor on printer-failure warnings plus eval round-trip oracle with per-type structural equality, boundary-value generators per stdlib type'
-LEVEL_TEXT = ('Boundary and random instances of all 19 listed standard-library type families are printed in five nesting contexts at several configurations with the warning recorder on; '
-              'any internal printer failure is a violation, and the output must evaluate to an object of the same type with an equal structural key.')
+LEVEL_TEXT = ('Boundary and seeded random instances of all 19 listed standard-library type families (plus struct sequences) are printed in five nesting contexts at several configurations with the warning recorder on; '
+              'any internal printer failure is a violation, the output must evaluate to an object of the same type with an equal structural key, and the reconstructed object must print and evaluate again (idempotence). '
+              'Classes, functions, iterators and other values without an evaluable form are printed for totality only.')
 LEVEL_NOTE = 'Generators are hand-written boundary lists plus seeded random datetimes/timedeltas; composite Flag values, lambda factories and custom tzinfo classes are outside the generator.'
 ANCHORS = ['pretty_stdlib.pretty_datetime', 'pretty_stdlib.pretty_timezone', 'pretty_stdlib.pretty_time', 'pretty_stdlib.pretty_date', 'pretty_stdlib.pretty_timedelta', 'pretty_stdlib.pretty_pytz_timezone', 'pretty_stdlib.pretty_pytz_dst_timezone', 'pretty_stdlib.pretty_ordereddict', 'pretty_stdlib.pretty_defaultdict', 'pretty_stdlib.pretty_deque', 'pretty_stdlib.pretty_counter', 'pretty_stdlib.pretty_chainmap', 'pretty_stdlib.pretty_mappingproxy', 'pretty_stdlib.pretty_uuid', 'pretty_stdlib.pretty_enum', 'pretty_stdlib.pretty_partial', 'pretty_stdlib.pretty_baseexception', 'pretty_stdlib.pretty_path', 'prettyprinter.pretty_simplenamespace', 'prettyprinter.pretty_namedtuple']
